@@ -82,6 +82,9 @@ def judge_mutant(job, use_cmake=True):
         return {"viol": [], "obs": None, "nt": None, "n": 0, "judged": False, "why": "valid"}
     except reflex.LexError as e:
         why = e.msg
+    if why.startswith("expected a newline after"):
+        # two complete commands on one line: CMake rejects it, but it is none of the faults the property lists
+        return {"viol": [], "obs": None, "nt": None, "n": 0, "judged": False, "why": "not a listed fault: " + why}
     if use_cmake:
         path = pipeline.write_tmp(text, "mutant.cmake")
         rej, out = cmake_rejects(path)
